@@ -54,6 +54,9 @@ def jobs(tier):
     out.append(("recheck-recheck.v3", "job_rr", dict(version=3)))
     out.append(("recheck-recheck.v1.other-piece-length", "job_rr", dict(version=1, P2=32768)))
     out.append(("recheck-recheck.v2.other-piece-length", "job_rr", dict(version=2, P2=32768)))
+    for version in (2, 3):
+        out.append(("failed-recheck-then-recheck.v%d" % version, "job_rr_failed", dict(version=version, failed=True)))
+    out.append(("verbose-command-then-rebuild", "job_verbose_rebuild", dict(verbose=True)))
     out.append(("edit-edit", "job_ee", {}))
     out.append(("create-magnet-edit-magnet", "job_magnet", {}))
     out.append(("rebuild-rebuild", "job_rebuild", {}))
@@ -224,6 +227,71 @@ def job_rr(E, version, P2=None, _mutants=None):
     got = do_recheck(E, w, second, "/data")
     fresh = do_recheck(E, World(fs.clone(), mutants=_mutants), second, "/data")
     E.check(same_num(got, fresh), "C09.recheck-after-recheck", "second recheck says %r, a fresh process %r" % (got, fresh))
+
+
+def _drop_nested_root(meta):
+    """The same metafile with the pieces root of a nested entry (name/d/b) removed: its recheck fails."""
+    from symx.loader import ben_copy
+    bad = ben_copy(meta)
+    leaf = bad["info"]["file tree"]["d"]["b"][""]
+    leaf.pop("pieces root", None)
+    return bad
+
+
+def job_rr_failed(E, version, failed=True, _mutants=None):
+    """A recheck that fails with an exception (malformed metafile), then a recheck of a valid one in the same process."""
+    P = 16384
+    shape = "nested3"
+    fs = AFS(order="reversed")
+    sizes = {r: E.int("s%d" % i, 1, P + 5) for i, r in enumerate(cr.SHAPES[shape])}
+    E.note("shape", shape)
+    rk.apply_damage(E, fs, shape, sizes, ["intact"] * 3)
+    meta = rk.ref_meta(E, version, shape, sizes, P)
+    fs.add_token("/t/m.torrent", BenTok(meta))
+    fs.add_token("/t/bad.torrent", BenTok(_drop_nested_root(meta)))
+    w = World(fs, mutants=_mutants)
+    first = do_recheck(E, w, "/t/bad.torrent", "/data")
+    E.witness("first recheck failed", isinstance(first, tuple))
+    got = do_recheck(E, w, "/t/m.torrent", "/data")
+    fresh = do_recheck(E, World(fs.clone(), mutants=_mutants), "/t/m.torrent", "/data")
+    E.check(same_num(got, fresh), "C09.recheck-after-failed-recheck", "after a failed recheck (%r) the next one says %r, a fresh process %r" % (first, got, fresh))
+
+
+def job_verbose_rebuild(E, verbose=True, _mutants=None):
+    """A command run with -v (debug logging switched on for the rest of the process), then a rebuild whose search
+    directories hold two same-named, same-sized candidates: the result equals a fresh process's."""
+    P = 16384
+    fs = AFS(order="reversed")
+    s0 = E.int("s0", P + 1, 3 * P)
+    s1 = E.int("s1", 1, P)
+    E.note("shape", "flat2")
+    from symx.abuf import ABuf
+    fs.add("/src/zz-good/a", ("f", 0), s0)
+    fs.add_content("/src/A-partial/a", ABuf.of([("F", ("f", 0), 0, P), ("F", ("decoy", 0), P, s0 - P)]))
+    fs.add("/src/b", ("f", 1), s1)
+    meta = rk.ref_meta(E, 1, "flat2", {"name/a": s0, "name/b": s1}, P)
+    fs.add_token("/t/m.torrent", BenTok(meta))
+    fs.mkdirs("/dest")
+    fsf = fs.clone()
+    w = World(fs, mutants=_mutants)
+    try:
+        try:
+            w.mod("cli").execute(["-v", "magnet", "/t/m.torrent"])
+        except SystemExit:
+            pass
+        n1 = w.mod("rebuild").Assembler(["/t/m.torrent"], ["/src"], "/dest").assemble_torrents()
+        w2 = World(fsf, mutants=_mutants)
+        n2 = w2.mod("rebuild").Assembler(["/t/m.torrent"], ["/src"], "/dest").assemble_torrents()
+    except Unsupported:
+        raise
+    except Exception as ex:  # noqa: BLE001
+        E.fail("C09.rebuild.no-exception", "%s: %s" % (type(ex).__name__, ex))
+        return
+    E.check(n1 == n2, "C09.rebuild-after-verbose.count", "rebuild after a -v command counts %r, a fresh process %r" % (n1, n2))
+    d1 = sorted(p for p in fs.files if p.startswith("/dest/"))
+    d2 = sorted(p for p in fsf.files if p.startswith("/dest/"))
+    E.check(d1 == d2 and all(fs.files[p].content == fsf.files[p].content for p in d1), "C09.rebuild-after-verbose.tree",
+            "destination after a -v command differs from a fresh process's: %r vs %r" % (d1, d2))
 
 
 def job_ee(E, _mutants=None):
@@ -473,6 +541,92 @@ def _replay_cli_config(params, model, workdir, seed):
     return [] if got == fr else ["C09.cli-create-after-config-create"]
 
 
+def _replay_rr_failed(params, model, workdir, seed):
+    import io
+    import contextlib
+    import copy
+    shape = "nested3"
+    p2 = dict(version=params["version"], shape=shape, P=16384, dmg=["intact"] * 3, source="ref", cpath="parent")
+    mpath, cpath, data, disk, sizes = rk.conc_world(p2, model, workdir, seed)
+    meta = refconc.bdecode_strict(open(mpath, "rb").read())
+    bad = copy.deepcopy(meta)
+    bad[b"info"][b"file tree"][b"d"][b"b"][b""].pop(b"pieces root", None)
+    bpath = os.path.join(workdir, "t", "bad.torrent")
+    with open(bpath, "wb") as f:
+        f.write(refconc.bencode(bad))
+    mods = cr.real_torrentfile()
+    R = mods["torrentfile.recheck"]
+
+    def run(p):
+        try:
+            with contextlib.redirect_stdout(io.StringIO()):
+                return R.Checker(p, cpath).results()
+        except Exception as ex:  # noqa: BLE001
+            return ("EXC", type(ex).__name__)
+    run(bpath)
+    got = run(mpath)
+    code = ("import json, io, contextlib\nfrom torrentfile.recheck import Checker\n"
+            "try:\n"
+            "    with contextlib.redirect_stdout(io.StringIO()):\n"
+            "        r = Checker(sys.argv[1], sys.argv[2]).results()\n"
+            "except Exception as ex:\n"
+            "    r = ['EXC', type(ex).__name__]\n"
+            "print(json.dumps(r))\n")
+    fresh = _fresh(code, workdir, mpath, cpath)
+    g = list(got) if isinstance(got, tuple) else got
+    return [] if g == fresh else ["C09.recheck-after-failed-recheck (%r vs %r)" % (g, fresh)]
+
+
+def _replay_verbose_rebuild(params, model, workdir, seed):
+    import io
+    import contextlib
+    import shutil
+    import logging
+    P = 16384
+    s0, s1 = int(model["s0"]), int(model["s1"])
+    da, db = refconc.content(("f", 0), s0, seed), refconc.content(("f", 1), s1, seed)
+    for root in ("p1", "p2"):
+        b = os.path.join(workdir, root)
+        refconc.write_file(b + "/src/zz-good/a", da)
+        refconc.write_file(b + "/src/A-partial/a", da[:P] + refconc.content(("decoy", 0), s0, seed)[P:])
+        refconc.write_file(b + "/src/b", db)
+        refconc.write_file(b + "/t/m.torrent", refconc.bencode(refconc.build_meta([(["a"], da), (["b"], db)], P, 1)))
+        os.makedirs(b + "/dest")
+    real_listdir = os.listdir
+    os.listdir = lambda p=".": sorted(real_listdir(p), reverse=True)
+    mods = cr.real_torrentfile()
+    b = os.path.join(workdir, "p1")
+    root_logger = logging.getLogger()
+    saved = (root_logger.level, list(root_logger.handlers))
+    try:
+        with contextlib.redirect_stdout(io.StringIO()), contextlib.redirect_stderr(io.StringIO()):
+            try:
+                mods["torrentfile.cli"].execute(["-v", "magnet", b + "/t/m.torrent"])
+            except SystemExit:
+                pass
+            mods["torrentfile.rebuild"].Assembler([b + "/t/m.torrent"], [b + "/src"], b + "/dest").assemble_torrents()
+    except Exception as ex:  # noqa: BLE001
+        return ["C09.rebuild.no-exception: %s: %s" % (type(ex).__name__, ex)]
+    finally:
+        os.listdir = real_listdir
+        root_logger.setLevel(saved[0])
+        for h in list(root_logger.handlers):
+            if h not in saved[1]:
+                root_logger.removeHandler(h)
+    b2 = os.path.join(workdir, "p2")
+    code = ("import json, io, contextlib, os\nimport torrentfile.rebuild as RB\nw = sys.argv[1]\n"
+            "_l = os.listdir\nos.listdir = lambda p='.': sorted(_l(p), reverse=True)\n"
+            "with contextlib.redirect_stdout(io.StringIO()):\n"
+            "    RB.Assembler([w + '/t/m.torrent'], [w + '/src'], w + '/dest').assemble_torrents()\n"
+            "print(json.dumps('ok'))\n")
+    r = _fresh(code, workdir, b2)
+    if r != "ok":
+        return ["C09.replay-subprocess: %r" % (r,)]
+    t1 = refconc.snapshot(b + "/dest")
+    t2 = refconc.snapshot(b2 + "/dest")
+    return [] if t1 == t2 else ["C09.rebuild-after-verbose.tree"]
+
+
 def _jsonable(x):
     if isinstance(x, dict):
         return sorted((repr(k), _jsonable(v)) for k, v in x.items())
@@ -494,6 +648,10 @@ def replay(params, model, notes, workdir, seed):
     import sys
     if "mv" in params:
         return _replay_cli_config(params, model, workdir, seed)
+    if params.get("failed"):
+        return _replay_rr_failed(params, model, workdir, seed)
+    if params.get("verbose"):
+        return _replay_verbose_rebuild(params, model, workdir, seed)
     if set(params) == {"version"} and notes.get("shape") == "flat2" and "t0" not in model:
         return _replay_rebuild_rewrite(params, model, workdir, seed)
     if "which2" not in params and "which" not in params and "mut" not in params and "version" not in params:
